@@ -38,7 +38,7 @@ func setup(c *casket.Controller) error {
 		return err
 	}
 
-	basic := BasicAuth{Rules: rules}
+	basic := BasicAuth{Rules: rules, IndexPages: cfg.IndexPages}
 
 	cfg.AddMiddleware(func(next httpserver.Handler) httpserver.Handler {
 		basic.Next = next
